@@ -294,6 +294,17 @@ pub fn check(sc: &Scenario, seed: u64) -> Result<Transaction, (String, String)> 
                 if sec != exp {
                     return Err(("unblind-mismatch".into(), format!("output {}: got {:?} expected {:?}", j, sec, exp)));
                 }
+                // the same opening by an independent wallet (own ECDH + SHA256d nonce, raw rewind, Elements message layout)
+                match guard(|| crate::oracle::rewind::open(s, out, &rsk)) {
+                    Err(p) => return Err(("independent-open-panic".into(), p)),
+                    Ok(Err(e)) => return Err(("independent-wallet-cannot-open".into(), format!("output {}: {}", j, e))),
+                    Ok(Ok(op)) => {
+                        use elements::hashes::Hash as _;
+                        if op.asset != b.out_assets[j].to_byte_array() || op.value != o.value || &op.abf[..] != abf.into_inner().as_ref() || &op.vbf[..] != vbf.into_inner().as_ref() {
+                            return Err(("independent-wallet-opens-to-other-secrets".into(), format!("output {}: asset {} value {}", j, crate::engine::hex(&op.asset), op.value)));
+                        }
+                    }
+                }
                 if Asset::new_confidential(s, b.out_assets[j], abf) != out.asset {
                     return Err(("asset-commitment-not-reproduced".into(), format!("output {}", j)));
                 }
